@@ -69,6 +69,14 @@ def oracle(ctx, cfg, rr):
                     return ctx.fail(f'broadcast on {members}, neither a gradient-worker nor a receiver group', case, 'bcast-group')
                 if cfg.k == 1 and is_worker_group and not is_recv:
                     return ctx.fail('inverse broadcast under MEM-OPT', case, 'inv-bcast-memopt')
+                if cfg.method == 'inverse' and is_worker_group and not is_recv:
+                    # explicit inverses are symmetric: n(n+1)/2 elements when symmetry-aware, n*n otherwise — A and G alike
+                    n = 1
+                    for s_ in shape:
+                        n *= s_
+                    if n not in fac_elems:
+                        return ctx.fail(f'inverse broadcast of {n} elements on {members}; expected one of {sorted(fac_elems)} '
+                                        f'({"n(n+1)/2" if cfg.sym else "n*n"})', case, 'inverse-elems')
                 if cfg.k == W and len(m) > 1 and not is_worker_group:
                     return ctx.fail('gradient broadcast under COMM-OPT', case, 'grad-bcast-commopt')
     # each factor all-reduced exactly once per factor-update step (unbucketed: one all-reduce per factor)
